@@ -606,7 +606,10 @@ namespace cgi {
 			}
 
 
-			parse_pairs();
+			if(!parse_pairs()) {
+				h(booster::system::error_code(errc::protocol_violation,cppcms_category));
+				return;
+			}
 
 			body_.clear();
 
